@@ -133,6 +133,81 @@ def first_diff(a, b, path=''):
     return None if a == b else (path or '.')
 
 
+def all_diffs(a, b, path='', out=None, limit=50):
+    """Paths of all differences between two snapshots."""
+    if out is None:
+        out = []
+
+    if len(out) >= limit:
+        return out
+
+    if type(a) is not type(b):
+        out.append(path or '.')
+    elif isinstance(a, dict):
+        for k in sorted(set(a) | set(b), key=str):
+            if k not in a or k not in b:
+                out.append('%s/%s' % (path, k))
+            else:
+                all_diffs(a[k], b[k], '%s/%s' % (path, k), out, limit)
+    elif isinstance(a, list):
+        if len(a) != len(b):
+            out.append('%s/len' % path)
+
+        for i, (x, y) in enumerate(zip(a, b)):
+            all_diffs(x, y, '%s/%d' % (path, i), out, limit)
+    elif a != b:
+        out.append(path or '.')
+
+    return out
+
+
+def allowed_prefixes(op, before_tree):
+    """Where a mutating step may change its own tree (snapshot paths); None
+    = anywhere (structure-wide steps such as generate_stats / parse)."""
+    name = op.get('op')
+    path = op.get('path', [])
+
+    def node_prefix(p):
+        if len(p) == 0:
+            return ''
+        elif len(p) == 1:
+            return '/changes/%d' % int(p[0])
+
+        return '/changes/%d/files/%d' % (int(p[0]), int(p[1]))
+
+    try:
+        if name in ('set', 'tweak'):
+            attr = op.get('attr', '')
+            base = node_prefix(path)
+
+            if attr.startswith('preamble'):
+                return [base + '/preamble']
+            elif attr.startswith('meta'):
+                return [base + '/meta']
+            elif attr.startswith('diff'):
+                return [base + '/diff']
+
+            return [base + '/options']
+        elif name == 'set_option':
+            base = node_prefix(path)
+            sec = op.get('sec', 'self')
+            return [base + ('/options' if sec == 'self' else '/' + sec)]
+        elif name in ('meta_set', 'meta_nested'):
+            return [node_prefix(path) + '/meta']
+        elif name == 'add_change':
+            n = len(before_tree.get('changes', []))
+            return ['/changes/%d' % n, '/changes/len']
+        elif name == 'add_file':
+            ci = int(op.get('change', 0))
+            n = len(before_tree['changes'][ci]['files'])
+            return ['/changes/%d/files/%d' % (ci, n),
+                    '/changes/%d/files/len' % ci]
+    except Exception:
+        return None
+
+    return None
+
+
 def field_class(path):
     """Normalised name of a snapshot path (indices removed)."""
     return '/'.join(p for p in (path or '').split('/') if not p.isdigit())
@@ -252,10 +327,26 @@ def run_dom_op(world, st, aid, op):
         elif name in OBSERVERS:
             world.violate('C18.observer-mutates', '%s:%s' % (
                 name, field_class(d)), {'op': op, 'tree': k, 'path': d})
-        elif res['outcome'] == 'raise':
+        elif res['outcome'] == 'raise' and name in (
+                'set', 'tweak', 'add_change', 'add_file', 'new_tree'):
             world.violate('C19.not-atomic', '%s:%s:%s' % (
                 name, op.get('attr', '-'), field_class(d)),
                 {'op': op, 'tree': k, 'path': d, 'exc': res.get('exc')})
+        elif res['outcome'] != 'raise':
+            # a successful mutation of one section must stay inside it: no
+            # other section of the same tree may change with it
+            allowed = allowed_prefixes(op, before[k])
+
+            if allowed is not None:
+                for dp in all_diffs(before[k], after[k]):
+                    if not any(dp == a or dp.startswith(a + '/')
+                               for a in allowed):
+                        world.violate(
+                            'C18.isolation-within-tree', '%s:%s' % (
+                                name, field_class(dp)),
+                            {'op': op, 'tree': k, 'path': dp,
+                             'allowed': allowed})
+                        break
 
     if name == 'generate_stats' and op.get('tree') in before and \
        op.get('tree') in after:
@@ -383,6 +474,66 @@ def _do(world, st, op):
 
         node.meta[op['key']] = copy.deepcopy(pyval(op.get('value')))
         return {}
+    elif name == 'meta_nested':
+        # in-place edit *below* the top level of a section's metadata
+        node = resolve(tree, op.get('path', []))
+
+        if node is None:
+            return {'outcome': 'skip', 'skipped': 'no-node'}
+
+        md = node.meta
+
+        for k in sorted(md, key=str):
+            v = md[k]
+
+            if isinstance(v, dict):
+                v[op.get('key', 'nested')] = copy.deepcopy(
+                    pyval(op.get('value')))
+                return {'nested': 'dict'}
+            elif isinstance(v, list):
+                v.append(copy.deepcopy(pyval(op.get('value'))))
+                return {'nested': 'list'}
+
+        return {'outcome': 'skip', 'skipped': 'nothing-nested'}
+    elif name == 'tweak':
+        # a single-field perturbation derived from the current value
+        node = resolve(tree, op.get('path', []))
+
+        if node is None:
+            return {'outcome': 'skip', 'skipped': 'no-node'}
+
+        cur = getattr(node, op['attr'])
+        how = op.get('how')
+
+        def rev(v):
+            if isinstance(v, dict):
+                return {k: rev(v[k]) for k in reversed(list(v))}
+            elif isinstance(v, list):
+                return [rev(x) for x in v]
+
+            return v
+
+        if how == 'reverse_keys' and isinstance(cur, dict):
+            new = rev(copy.deepcopy(cur))
+        elif isinstance(cur, str) and cur:
+            new = {'append_nl': cur + '\n', 'append_crlf': cur + '\r\n',
+                   'strip_nl': cur[:-1] if cur.endswith('\n') else cur + '\n',
+                   'append_space': cur + ' ', 'swapcase': cur.swapcase(),
+                   'prepend_bom': '\ufeff' + cur}.get(how)
+        elif isinstance(cur, bytes) and cur:
+            new = {'append_nl': cur + b'\n', 'append_crlf': cur + b'\r\n',
+                   'strip_nl': cur[:-1] if cur.endswith(b'\n')
+                   else cur + b'\n',
+                   'append_space': cur + b' ', 'swapcase': cur.swapcase(),
+                   'prepend_bom': b'\xef\xbb\xbf' + cur}.get(how)
+        else:
+            new = None
+
+        if new is None:
+            return {'outcome': 'skip', 'skipped': 'not-applicable'}
+
+        setattr(node, op['attr'], new)
+        return {'tweaked': how}
     elif name == 'to_bytes':
         b1 = tree.to_bytes()
         b2 = tree.to_bytes()
